@@ -190,7 +190,7 @@ fn grid(thorough: bool) -> Vec<StCase> {
     let delays: Vec<usize> = if thorough { vec![0, 1, 2, 3, 4] } else { vec![0, 2] };
     for &players in &players {
         for cd in 0..=9usize {
-            for w in 1..=10usize {
+            for w in 0..=10usize {
                 for &d in &delays {
                     for sparse in [false, true] {
                         for program in [Program::Changing, Program::Runs, Program::Constant] {
